@@ -169,6 +169,55 @@ def run(ctx):
             st["hist"]["spelling_%s" % ("default" if s["spelled"] is None else "dot" if s["spelled"] == "." else "abs" if s["spelled"].startswith("/") else "rel")] += 1
         if len(st["samples"]) < 3 and deep and excl and len(rows) < 15:
             st["samples"].append({"argv": [j["query"]], "rows": rows})
+    # ---- `symlinks`: a link to a directory OUTSIDE every root is entered, and its content listed below the link ----
+    # (links inside the roots, cycles and the at-most-once rule are C18's subject; here the clause "not descended
+    #  into UNLESS `symlinks` is given" on the simplest shape: one link, relative or absolute, at any depth)
+    sjobs = []
+    for t in range(12 if ctx.tier == "quick" else 120):
+        base = os.path.join(ctx.scratch, "s%d" % t)
+        root = os.path.join(base, rng.choice(["r", "p/r", "p/q/r"]))
+        os.makedirs(root)
+        fstree.build(root, fstree.gen_tree(rng, max_entries=rng.choice([6, 15]), max_depth=4, kinds=("file", "dir"), p_dir=0.5))
+        outside = os.path.join(base, "outside%d" % t)
+        os.makedirs(os.path.join(outside, "deep"))
+        for nm in ("inner.txt", "deep/leaf.txt", "deep/x"):
+            open(os.path.join(outside, nm), "w").close()
+        dirs = [dp for dp, _, _ in os.walk(root)]
+        where = rng.choice(dirs if t % 3 else [d for d in dirs if d != root] or dirs)
+        lp = os.path.join(where, "lnk")
+        text = outside if t % 4 == 0 else os.path.relpath(outside, where)
+        os.symlink(text, lp)
+        for dfs in (False, True):
+            cwd, sp = rng.choice([(base, os.path.relpath(root, base)), (root, "."), (ctx.scratch, root), (os.path.dirname(root), "r")])
+            sjobs.append(dict(base=base, root=root, cwd=cwd, sp=sp, lp=lp, text=text, dfs=dfs, outside=outside))
+
+    def sone(j):
+        with_l = ctx.impl.rows(["path from %s symlinks%s into list" % (j["sp"], " dfs" if j["dfs"] else "")], cwd=j["cwd"])
+        without = ctx.impl.rows(["path from %s%s into list" % (j["sp"], " dfs" if j["dfs"] else "")], cwd=j["cwd"])
+        return j, with_l, without
+
+    for j, rw, ro in pmap(sone, sjobs):
+        case = {"tree": j["base"], "cwd": j["cwd"], "argv": ["path from %s symlinks%s into list" % (j["sp"], " dfs" if j["dfs"] else "")], "link": [j["lp"], j["text"]]}
+        if rw["status"] != 0 or ro["status"] != 0:
+            ctx.violation("impl-violates-spec", "status %s / %s with a link to an outside directory" % (rw["status"], ro["status"]), input=case)
+            continue
+        def ident(x):      # an entry is identified by the real path of its directory and its name (the spelling below a followed link is not prescribed)
+            ab = os.path.normpath(os.path.join(j["cwd"], x))
+            return os.path.join(os.path.realpath(os.path.dirname(ab)), os.path.basename(ab))
+        a = sorted(ident(v.decode("utf-8", "surrogateescape")) for v in rw["values"])
+        b = [ident(v.decode("utf-8", "surrogateescape")) for v in ro["values"]]
+        if b.count(os.path.join(os.path.realpath(os.path.dirname(j["lp"])), "lnk")) != 1:
+            ctx.violation("impl-violates-spec", "the link itself is not listed exactly once without `symlinks`", input=case, observed=b[:30])
+            continue
+        ro_real = os.path.realpath(j["outside"])
+        below = [os.path.join(ro_real, x) for x in ("inner.txt", "deep", "deep/leaf.txt", "deep/x")]
+        exp = sorted(b + below)
+        if a != exp:
+            ctx.violation("impl-violates-spec", "with `symlinks` the entries are not those of the plain listing plus the content of the linked outside directory (each once)",
+                          input=case, observed=a[:40], expected=exp[:40], missing=sorted(set(exp) - set(a))[:8], extra=sorted(set(a) - set(exp))[:8])
+        else:
+            st["agreed"] += 1
+            st["hist"]["symlinks_outside_" + ("abs" if j["text"].startswith("/") else "rel")] += 1
     # the root directory itself as a search root (its canonical path `/` has as many separators as `/usr`):
     # window 2..2 below `/`, restricted by WHERE to one small directory of the real file system
     probe = "/usr" if os.path.isdir("/usr") else None
@@ -184,7 +233,7 @@ def run(ctx):
         else:
             st["hist"]["root_directory_window"] = 1
     ctx.coverage.update(
-        evaluations=len(jobs), distinct_nontrivial=len(st["distinct"]), traces_validated_against_impl=st["agreed"],
-        rule="random trees (1-3 disjoint roots, up to 50 entries each, depth <= 6, files/dirs/symlinks incl. dangling/FIFOs/sockets/dot-files, adversarial names) x root spellings (relative, ./x, absolute, trailing slash, '.', default) x mindepth/maxdepth in 0..height+2 x bfs/dfs; the binary's exact row sequence is compared with model.Walk.walk_roots fed the observed tree (getdents order from os.scandir) and with an independent recursive listing (multiset + bfs/dfs order predicates). plus the real root directory `/` as a search root with the window 2..2 restricted to /usr. non-trivial = some directory at depth >= 2 and a window that excludes at least one entry",
+        evaluations=len(jobs) + len(sjobs), distinct_nontrivial=len(st["distinct"]), traces_validated_against_impl=st["agreed"],
+        rule="random trees (1-3 disjoint roots, up to 50 entries each, depth <= 6, files/dirs/symlinks incl. dangling/FIFOs/sockets/dot-files, adversarial names) x root spellings (relative, ./x, absolute, trailing slash, '.', default) x mindepth/maxdepth in 0..height+2 x bfs/dfs; the binary's exact row sequence is compared with model.Walk.walk_roots fed the observed tree (getdents order from os.scandir) and with an independent recursive listing (multiset + bfs/dfs order predicates). plus trees with one link (relative or absolute text, at any depth) to a directory outside the root: with `symlinks` the rows are the plain listing plus the linked directory's content below the link, bfs and dfs, four cwd/root spellings. plus the real root directory `/` as a search root with the window 2..2 restricted to /usr. non-trivial = some directory at depth >= 2 and a window that excludes at least one entry",
         samples=st["samples"], distribution=dict(st["hist"]))
     return ctx.finish(trusted=["canonicalize, read_dir and inode uniqueness are the kernel's; the observer (os.scandir, os.lstat, os.path.realpath) supplies them to the model"])
